@@ -221,6 +221,25 @@ func RunKeyspace(finals []KSFinal, seed int64, stride int) (runs []KSRun, viols 
 					if got != want {
 						bad("read through %s of %s under instance %q returned write #%d (0 = miss, -1 = error), the specification says #%d", front, kind, inst, got, want)
 					}
+					// Keyspace.tla, Exists: an existence check names the same entry as the read (HTTP HEAD; gRPC has
+					// FindMissingBlobs for the CAS only)
+					if front == "http" {
+						run.Probes++
+						c, _, _, e := f.HTTPDo(http.MethodHead, instPath(inst)+"/"+kind+"/"+h, nil, nil)
+						if e != nil || (want > 0) != (c == 200) || (want == 0) != (c == 404) {
+							bad("HTTP HEAD of %s under instance %q answered %d (%v), the specification says the entry %s", kind, inst, c, e,
+								map[bool]string{true: "exists (200)", false: "does not exist (404)"}[want > 0])
+						}
+					} else if kind == "cas" {
+						run.Probes++
+						ctx, cancel := fe.Ctx()
+						r, e := f.CAS.FindMissingBlobs(ctx, &pb.FindMissingBlobsRequest{InstanceName: inst, BlobDigests: []*pb.Digest{{Hash: h, SizeBytes: int64(len(D))}}})
+						cancel()
+						if e != nil || (want > 0) != (len(r.MissingBlobDigests) == 0) {
+							bad("FindMissingBlobs under instance %q: missing=%v (%v), the specification says the blob %s", inst, r.GetMissingBlobDigests() != nil, e,
+								map[bool]string{true: "exists", false: "does not exist"}[want > 0])
+						}
+					}
 				}
 			}
 		}
